@@ -86,7 +86,7 @@ type vAction struct {
 	Hold        int    `json:"hold,omitempty"`     // yields (and 50us sleeps every 8th) while holding the runner
 	Gated       bool   `json:"gated,omitempty"`    // hold until the harness opens the gate (used by the queue-full scenario)
 	CancelAt    int    `json:"cancel_at,omitempty"` // >0: cancel this many yields after submit, before any reply
-	LoadMode    string `json:"load,omitempty"`      // ok | fail | block (block: until the request ctx is cancelled)
+	LoadMode    string `json:"load,omitempty"`      // ok | fail | block (until the request ctx is cancelled) | ok-late (succeeds although cancelled)
 	LoadDelayUs int    `json:"load_delay_us,omitempty"`
 	SleepUs     int    `json:"sleep_us,omitempty"`
 	Burst       int    `json:"burst,omitempty"` // op burst: number of back-to-back submissions from this goroutine
@@ -262,6 +262,10 @@ func (m *vMock) WaitUntilRunning(ctx context.Context) error {
 		if err = vSleepCtx(ctx, m.act.LoadDelayUs); err == nil {
 			err = errVScriptedLoad
 		}
+	case "ok-late":
+		// the runner becomes ready although the requester has meanwhile cancelled: the load SUCCEEDS with a
+		// cancelled request context (a real server that finishes loading just as the client gives up)
+		vSleepCtx(nil, m.act.LoadDelayUs)
 	default:
 		// like the real server, a cancelled request context aborts the load
 		err = vSleepCtx(ctx, m.act.LoadDelayUs)
@@ -722,14 +726,30 @@ type vQuiesce struct {
 const vPkg = "github.com/ollama/ollama/server."
 
 func vRelevant(ignore map[int]bool) (active, blocked []kit.G) {
-	for _, g := range kit.Goroutines() {
+	gs := kit.Goroutines()
+	// The VRAM-recovery poller (<-ticker.C) matters only while the completion loop waits for its verdict
+	// (<-finished). Upstream forgot the return after the 5 s timeout: a poller whose runner's memory never
+	// "recovers" keeps ticking for ever after it has delivered; such a leaked poller is not activity.
+	completionWaits := false
+	for _, g := range gs {
+		if !ignore[g.ID] && g.Has("processCompleted") && g.State == "chan receive" {
+			completionWaits = true
+		}
+	}
+	for _, g := range gs {
 		if ignore[g.ID] || !g.Has(vPkg) {
 			continue
 		}
 		if g.Has("testing.tRunner") && !g.Has("runClient") {
 			continue // the test goroutine itself (it is the one sampling)
 		}
-		if g.Active() || (g.Has("waitForVRAMRecovery") && g.State == "chan receive" && !g.Has("processCompleted")) {
+		if g.Has("waitForVRAMRecovery.func") && !g.Has("processCompleted") {
+			if completionWaits {
+				active = append(active, g)
+			}
+			continue
+		}
+		if g.Active() {
 			// (the VRAM-recovery poller sits in <-ticker.C: it will move by itself)
 			active = append(active, g)
 		} else {
@@ -912,6 +932,21 @@ func vRunHistory(t testing.TB, h *vHistory, ignore map[int]bool) *vOutcome {
 			return true
 		case vInconclusive:
 			out.Inconcl = name + ": neither reached nor quiescent within the watchdog"
+			active, _ := vRelevant(ignore)
+			var fr []string
+			for _, g := range active {
+				fr = append(fr, "["+g.State+"] "+strings.Join(g.Frames[:min(len(g.Frames), 4)], " < "))
+			}
+			sort.Strings(fr)
+			u, c := w.replyState()
+			_, loaded, refs, _ := w.pendingTimers()
+			_, bl := vRelevant(ignore)
+			var bf []string
+			for _, g := range bl {
+				bf = append(bf, "["+g.State+"] "+strings.Join(g.Frames[:min(len(g.Frames), 3)], " < "))
+			}
+			sort.Strings(bf)
+			out.Inconcl += fmt.Sprintf(" (unreplied %v, unclosed %v, loaded %d, refs %d; active: %s; blocked: %s)", u, c, loaded, refs, strings.Join(fr[:min(len(fr), 6)], " | "), strings.Join(bf[:min(len(bf), 8)], " | "))
 			return false
 		}
 		out.Stuck = true
@@ -948,7 +983,32 @@ func vRunHistory(t testing.TB, h *vHistory, ignore map[int]bool) *vOutcome {
 			return finish()
 		}
 	}
-	if !phase("drain", w.drained) {
+	// A request that was cancelled while it waited for room can still be loaded afterwards (its load may
+	// succeed although the requester is gone); with a forever keep-alive such a late runner needs the explicit
+	// unload again, so the unload of forever-runners is repeated while draining.
+	// (At most 6 repetitions: every call posts an expiry event, and hammering expireRunner while a slow
+	// multi-GPU unload is in progress fills the scheduler's expiredCh (capacity OLLAMA_MAX_QUEUE), on which
+	// the completion loop itself then blocks — an artefact of an abusive client, not of the histories meant here.)
+	var lastUnload time.Time
+	var unloading atomic.Bool
+	unloadRounds := 0
+	drainCond := func() bool {
+		if w.drained() {
+			return true
+		}
+		if h.FinalUnload && unloadRounds < 6 && time.Since(lastUnload) > 150*time.Millisecond && unloading.CompareAndSwap(false, true) {
+			lastUnload = time.Now()
+			unloadRounds++
+			go func() {
+				defer unloading.Store(false)
+				for i := range w.models {
+					w.s.expireRunner(w.models[i])
+				}
+			}()
+		}
+		return false
+	}
+	if !phase("drain", drainCond) {
 		return finish()
 	}
 	out.Drained = true
@@ -1039,6 +1099,14 @@ func vGenHistory(r *kit.Rand, idx int, p vProfile) *vHistory {
 		}
 		h.MockPlans = append(h.MockPlans, mp)
 	}
+	if len(h.GPUs) > 1 {
+		// every unload of a multi-GPU runner waits for "VRAM recovery" (250 ms polls of the real system memory,
+		// up to 5 s when the free memory does not rise by 80 % of the runner's estimate): keep the estimate 0 so
+		// that the first poll converges and such histories stay within the watchdog
+		for i := range h.MockPlans {
+			h.MockPlans[i].VRAMMB = 0
+		}
+	}
 	nextReq := 1
 	mkReq := func() vAction {
 		a := vAction{Op: "req", Req: nextReq, Model: r.Intn(h.Models), NumCtx: 8, NumGPU: -1}
@@ -1066,6 +1134,9 @@ func vGenHistory(r *kit.Rand, idx int, p vProfile) *vHistory {
 			a.CancelAt = r.Range(1, 40)
 			if p.blockLoads && r.Chance(1, 3) {
 				a.LoadMode = "block"
+			} else if r.Chance(1, 2) {
+				a.LoadMode = "ok-late"
+				a.LoadDelayUs = kit.Pick(r, []int{300, 1000, 3000})
 			}
 		}
 		return a
